@@ -178,20 +178,17 @@ def op_logInvGammaCl (j : Json) : Json :=
   | _, _ => jErr "bad-args"
 
 def op_interp (j : Json) : Json :=
-  let f := fF? j
   match nodes? j, fRatList? j "x" with
   | some (n0, rest), some xq => jObj [("y", jRats (xq.map fun x => interp x n0 rest))]
   | _, _ => jErr "ValueError"
 
 def op_interpInv (j : Json) : Json :=
-  let f := fF? j
   -- `interpolatorInverse` with `table_func = id`
   match nodes? j, fRatList? j "y" with
   | some (n0, rest), some yq => jObj [("x", jRats (yq.map fun y => interpolatorInverse (fun t => t) y n0 rest))]
   | _, _ => jErr "ValueError"
 
 def op_xsStep (j : Json) : Json :=
-  let f := fF? j
   match fRat? j "xmin", fRat? j "xmax", fRat? j "step" with
   | some a, some b, some s =>
     if s == 0 then jErr "ZeroDivisionError" else
@@ -200,13 +197,11 @@ def op_xsStep (j : Json) : Json :=
   | _, _, _ => jErr "bad-args"
 
 def op_xsNum (j : Json) : Json :=
-  let f := fF? j
   match fRat? j "xmin", fRat? j "xmax", fNat? j "num" with
   | some a, some b, some n => let xs := interpolatorXsNum a b n; jObj [("n", jNat xs.length), ("xs", jRats xs)]
   | _, _, _ => jErr "bad-args"
 
 def op_xsOp (j : Json) : Json :=
-  let f := fF? j
   match fRat? j "xmin", fRat? j "xmax", fRat? j "step" with
   | some a, some b, some s =>
     if s == 0 then jErr "ZeroDivisionError" else
@@ -225,7 +220,6 @@ def op_invgammaRe (j : Json) : Json :=
   | _, _, _, _ => jErr "bad-args"
 
 def op_invgammaInvRe (j : Json) : Json :=
-  let f := fF? j
   match nodes? j, fRatList? j "y" with
   | some (n0, rest), some yq =>
     let fl (p : Rat × Rat) : Float × Float := (ratToFloat p.1, ratToFloat p.2)
